@@ -90,9 +90,24 @@ def _strip_const(q):
     return re.sub(r'\s+', ' ', q).strip()
 
 
-def _classify(t):
-    """AST type dict -> (kind, C++ type to cast to) or (None, why).  kind: int | flt | str | sstr"""
+def _enum_of(u, q):
+    name = re.sub(r'^enum\s+', '', _strip_const(q)).replace('::', '__')
+    for e in u.tu.enums:
+        if e.get('name') and u.prelude._enum_cname(e) == name: return e
+    return None
+
+
+def _enumerators(e):
+    pre = (e['_cls'].replace('__', '::') + '::') if e.get('_cls') else ''
+    return [pre + c['name'] for c in e.get('inner', []) if c.get('kind') == 'EnumConstantDecl']
+
+
+def _classify(t, u=None):
+    """AST type dict -> (kind, C++ type to cast to) or (None, why).  kind: int | flt | str | sstr | enum"""
     q = t.get('qualType', '')
+    if u is not None and '*' not in q and '&' not in q:
+        e = _enum_of(u, q)
+        if e is not None and _enumerators(e): return 'enum', re.sub(r'^enum\s+', '', _strip_const(q))
     d = t.get('desugaredQualType', q)
     qs, ds = _strip_const(q), _strip_const(d)
     if ds in INT_TYPES or qs in INT_TYPES or qs in INT_TYPEDEFS: return 'int', qs
@@ -143,25 +158,36 @@ def analyse(u, tu_rel, cname):
     c.cls = (f.get('_cls') or '').replace('__', '::')
     c.recv = None
     if not static:
-        if f.get('_cls') != 'SimpleString': raise Ineligible('non-static method of %s (needs an object)' % f.get('_cls'))
-        if not re.search(r'\bconst\b', trail): raise Ineligible('non-const SimpleString method (mutates the receiver)')
-        c.recv = 'sstr'
-    rk, rt = _classify({'qualType': ret})
+        if f.get('_cls') == 'SimpleString':
+            # receiver = a SimpleString built from an input string (const methods only: both sides see the same value)
+            if not re.search(r'\bconst\b', trail): raise Ineligible('non-const SimpleString method (mutates the receiver)')
+            c.recv = 'sstr'
+        else:
+            # receiver = a default-constructed object of the real class, a fresh one per side and call; the emitted C reads
+            # it through the emitted struct (same layout: R7 guard)
+            rec = u.tu.records.get(f.get('_cls'))
+            dd = (rec or {}).get('definitionData', {})
+            if rec is None or dd.get('isAbstract') or not dd.get('defaultCtor', {}).get('exists'):
+                raise Ineligible('non-static method of %s (no default-constructible receiver)' % f.get('_cls'))
+            c.recv = 'obj'
+    rk, rt = _classify({'qualType': ret}, u)
     if ret == 'void': raise Ineligible('returns void (nothing to compare)')
-    if rk not in ('int', 'flt', 'str'): raise Ineligible('return type %s' % ret)
+    if rk not in ('int', 'flt', 'str', 'enum'): raise Ineligible('return type %s' % ret)
     c.ret_kind = rk
     c.params = []
     for i, p in enumerate(cxx2c.params_of(f)):
-        k, t = _classify(p['type'])
+        k, t = _classify(p['type'], u)
         if k is None: raise Ineligible('parameter %s of type %s' % (p.get('name') or i, t))
         isbool = _strip_const(p['type'].get('desugaredQualType', p['type']['qualType'])) == 'bool'
-        c.params.append(dict(kind=k, ctype=t, name=p.get('name') or '_p%d' % i, isbool=isbool,
+        c.params.append(dict(kind=k, ctype=t, name=p.get('name') or '_p%d' % i, isbool=isbool, values=_enumerators(_enum_of(u, t)) if k == 'enum' else None,
                              isf32=_strip_const(p['type'].get('desugaredQualType', p['type']['qualType'])) == 'float'))
-    if len(c.params) + (1 if c.recv else 0) > MAXP: raise Ineligible('more than %d parameters' % MAXP)
-    if not c.params and not c.recv: raise Ineligible('no inputs')
+    if len(c.params) + (1 if c.recv == 'sstr' else 0) > MAXP: raise Ineligible('more than %d parameters' % MAXP)
     # pointer to the real function (resolves overloads by the AST's own type)
     name = f.get('name', '')
     c.real_ref = '&' + (c.cls + '::' if c.cls else '') + name
+    c.nested = {}
+    for w in set(re.findall(r'\b\w+__\w+\b', proto)):
+        if w in u.tu.recdecls or w in u.prelude.enumnames: c.nested[w] = w.replace('__', '::')
     c.real_decl = lambda var: ('%s (%s::*%s)%s%s' % (ret, c.cls, var, plist, trail)) if not static else ('%s (*%s)%s' % (ret, var, plist))
     return c
 
@@ -270,7 +296,7 @@ DRIVER_HEAD = r'''/* generated by tv.py: differential driver */
 #define TVD_MAXB 640
 #define TVD_MAXIN 40000
 
-struct tvd_pd { int kind; int bits; int sgn; int f32; };          /* kind 0 int, 1 float, 2 string */
+struct tvd_pd { int kind; int bits; int sgn; int f32; const long long *vals; int nvals; };   /* kind 0 int, 1 float, 2 string; vals: the only admissible values (enumerators) */
 struct tvd_val { unsigned long long u; double d; char *s; size_t n; };
 struct tvd_in { tvd_val a[TVD_MAXP]; };
 struct tvd_fn { const char *name; int np; tvd_pd p[TVD_MAXP]; void (*cxx)(const tvd_val *, char *); void (*c)(const tvd_val *, char *); int proto_same; };
@@ -363,7 +389,9 @@ static void tvd_adds(tvd_bset *b, const char *s) { if (b->n < TVD_MAXB) { tvd_se
 static void tvd_bounds(const tvd_pd *p, int all_chars, tvd_bset *b)
 {
     b->n = 0;
-    if (p->kind == 0) {
+    if (p->kind == 0 && p->nvals) {
+        for (int i = 0; i < p->nvals; i++) tvd_addi(b, p, (unsigned long long)p->vals[i]);
+    } else if (p->kind == 0) {
         if (all_chars && p->bits == 8) { for (int i = 0; i < 256; i++) tvd_addi(b, p, (unsigned long long)i); return; }
         static const long long small[] = {0, 1, -1, 2, -2, 3, 7, 8, 9, 10, 11, 16, 32, 47, 48, 57, 58, 64, 65, 90, 91, 96, 97, 99, 100, 122, 123, 126, 127, 128, 255, 256, 1000, 65535, 65536};
         for (unsigned i = 0; i < sizeof small / sizeof small[0]; i++) tvd_addi(b, p, (unsigned long long)small[i]);
@@ -434,7 +462,7 @@ static void tvd_random_val(const tvd_pd *pds, const tvd_bset *bs, const tvd_in *
     out->u = 0; out->d = 0; out->s = 0; out->n = 0;
     int prev = -1; for (int i = k - 1; i >= 0; i--) if (pds[i].kind == p->kind) { prev = i; break; }
     if (p->kind == 0) {
-        if (r < 25) out->u = bs[k].v[tvd_below((unsigned)bs[k].n)].u;
+        if (r < 25 || p->nvals) out->u = bs[k].v[tvd_below((unsigned)bs[k].n)].u;
         else if (r < 55) { unsigned long long s = tvd_below(46); out->u = (p->sgn && tvd_below(4) == 0) ? 0 - s : s; }
         else if (r < 75) { int bl = 1 + (int)tvd_below((unsigned)p->bits); out->u = tvd_rnd() & tvd_mask(bl); if (p->sgn && tvd_below(2)) out->u = 0 - out->u; }
         else out->u = tvd_rnd();
@@ -573,6 +601,7 @@ static void tvd_run(const tvd_fn *f, unsigned long long seed, int fidx, int nran
         }
     }
     int nbound = tvd_nin;
+    if (f->np == 0) nrandom = 0;                                           /* no inputs: one call */
     for (int i = 0; i < nrandom; i++) {
         for (int k = 0; k < f->np; k++) tvd_random_val(f->p, bs, &in, k, &in.a[k]);
         tvd_push(&in);
@@ -656,6 +685,9 @@ def _cxx_proto(c):
 
 def driver_text(tu_rel, cands):
     out = [DRIVER_HEAD.replace('@TU@', os.path.join(REPO, tu_rel))]
+    nested = {}
+    for c in cands: nested.update(c.nested)
+    out.append(''.join('typedef %s %s;\n' % (v, k) for k, v in sorted(nested.items())))
     out.append('extern "C" {\n' + '\n'.join(_cxx_proto(c) for c in cands) + '\n}\n')
     table = []
     for k, c in enumerate(cands):
@@ -663,13 +695,20 @@ def driver_text(tu_rel, cands):
         out.append('static %s = %s;\n' % (c.real_decl(real), c.real_ref))
         pds = []; pre = []; cxx_args = []; c_args = []
         idx = 0
-        if c.recv:
+        if c.recv == 'sstr':
             pre.append('SimpleString tvd_self(a[0].s);')
             pds.append('{2, 0, 0, 0}'); idx = 1
+        elif c.recv == 'obj':
+            pre.append('%s tvd_self{};' % c.cls)
         for p in c.params:
             if p['kind'] == 'int':
                 e = '(%s)a[%d].u' % (p['ctype'], idx)
                 pds.append('{0, %s, ((%s)-1 < (%s)0) ? 1 : 0, 0}' % ('1' if p['isbool'] else '(int)(sizeof(%s) * 8)' % p['ctype'], p['ctype'], p['ctype']))
+                cxx_args.append(e); c_args.append(e)
+            elif p['kind'] == 'enum':
+                e = '(%s)(int)a[%d].u' % (p['ctype'], idx)
+                out.append('static const long long tvd_ev_%d_%d[] = {%s};\n' % (k, idx, ', '.join('(long long)%s' % v for v in p['values'])))
+                pds.append('{0, (int)(sizeof(%s) * 8), 1, 0, tvd_ev_%d_%d, %d}' % (p['ctype'], k, idx, len(p['values'])))
                 cxx_args.append(e); c_args.append(e)
             elif p['kind'] == 'flt':
                 e = '(%s)a[%d].d' % (p['ctype'], idx)
@@ -686,15 +725,16 @@ def driver_text(tu_rel, cands):
         if c.recv:
             call_cxx = '(tvd_self.*%s)(%s)' % (real, ', '.join(cxx_args))
             call_c = 'tv_%s(%s)' % (c.cname, ', '.join(['&tvd_self'] + c_args))
-            np_repr = 0
+            np_repr = 0 if c.recv == 'sstr' else np
         else:
             call_cxx = '%s(%s)' % (real, ', '.join(cxx_args))
             call_c = 'tv_%s(%s)' % (c.cname, ', '.join(c_args))
             np_repr = np
+        if c.ret_kind == 'enum': call_cxx = '(long long)(%s)' % call_cxx; call_c = '(long long)(%s)' % call_c
         out.append('static void tvd_cxx_%d(const tvd_val *a, char *out) { %s tvd_repr(out, a, %d, %s); }\n' % (k, ' '.join(pre), np_repr, call_cxx))
         out.append('static void tvd_c_%d(const tvd_val *a, char *out) { %s tvd_repr(out, a, %d, %s); }\n' % (k, ' '.join(pre), np_repr, call_c))
         same = '(int)tvd_same<__typeof__(%s), __typeof__(&tv_%s)>::v' % (real, c.cname) if (c.static and not any(p['kind'] == 'sstr' for p in c.params)) else '-1'      # R4 turns references into pointers on purpose
-        table.append('  {"%s", %d, {%s}, tvd_cxx_%d, tvd_c_%d, %s}' % (c.cname, np, ', '.join(pds), k, k, same))
+        table.append('  {"%s", %d, {%s}, tvd_cxx_%d, tvd_c_%d, %s}' % (c.cname, np, ', '.join(pds) or '{0, 0, 0, 0}', k, k, same))
     out.append('static const tvd_fn tvd_fns[] = {\n' + ',\n'.join(table) + '\n};\n')
     out.append(DRIVER_MAIN)
     return ''.join(out)
